@@ -33,6 +33,8 @@ type process struct {
 	pid      *PID
 	restarts int32
 	mbuffer  []Envelope
+	// set by cleanup: the process is done and must not be started again.
+	stopped bool
 }
 
 func newProcess(e *Engine, opts Opts) *process {
@@ -142,6 +144,11 @@ func (p *process) Start() {
 		p.Invoke(p.mbuffer)
 		p.mbuffer = nil
 	}
+	// Replaying the buffer may have stopped the process (poison pill, max
+	// restarts): its inbox stays stopped.
+	if p.stopped {
+		return
+	}
 
 	p.inbox.Start(p)
 }
@@ -209,6 +216,7 @@ func (p *process) cleanup(cancel context.CancelFunc) {
 		}
 	}
 
+	p.stopped = true
 	p.inbox.Stop()
 	p.context.engine.Registry.Remove(p.pid)
 	p.context.message = Stopped{}
